@@ -690,7 +690,9 @@ func (s *clientSocket) emit(
 		panic(fmt.Errorf("sio: Emit: attempted to emit a reserved event: `%s`", eventName))
 	}
 
-	if eventName != "" {
+	// Packets coming from the packet queue (see clientPacketQueue.drainQueue)
+	// already carry the event name as their first value.
+	if !fromQueue {
 		v = append([]any{eventName}, v...)
 	}
 
